@@ -109,8 +109,8 @@ ReduceConfigs ==
               xd \in DimChoices, yd \in DimChoices, f \in Forms}
     \cup {[op |-> "cast_to", xd |-> xd, yd |-> yd, seed |-> 0, form |-> "obj"] :
               xd \in DimChoices, yd \in (IF MaxDims = 0 THEN FullOrders ELSE OrderedSubsets(BaseLetters))}
-    \cup {[op |-> "cumsum", xd |-> xd, yd |-> <<l>>, seed |-> 0, form |-> "letter"] :
-              xd \in DimChoices, l \in BaseLetters}
+    \cup {[op |-> o, xd |-> xd, yd |-> <<l>>, seed |-> 0, form |-> "letter"] :
+              xd \in DimChoices, l \in BaseLetters, o \in {"cumsum", "cumsum_inplace"}}      \* (in place: the operand becomes the result)
     \cup {[op |-> "shares", xd |-> xd, yd |-> yd, seed |-> s, form |-> "letter"] :
               xd \in DimChoices, yd \in DimChoices, s \in Seeds}
 
@@ -119,7 +119,7 @@ ApplyReduce(c) ==
     CASE c.op = "sum_to"   -> SumTo(x, c.yd)
       [] c.op = "sum_over" -> SumOver(x, Range(c.yd))
       [] c.op = "cast_to"  -> CastTo(x, c.yd)
-      [] c.op = "cumsum"   -> CumSum(x, c.yd[1])
+      [] c.op \in {"cumsum", "cumsum_inplace"} -> CumSum(x, c.yd[1])
       [] c.op = "shares"   -> SharesOver(x, Range(c.yd))
 
 Configs == IF Family = "arith" THEN ArithConfigs ELSE ReduceConfigs
@@ -187,7 +187,7 @@ Prop_C07 ==
           /\ res # Error =>
                 /\ res.dims = c.yd
                 /\ SumTo(res, c.xd) = Arr(c.xd, LAMBDA lab : PScale(Added(x, c.yd), x.val[lab]))
-    /\ c.op = "cumsum" =>
+    /\ c.op \in {"cumsum", "cumsum_inplace"} =>
           /\ (res = Error <=> c.yd[1] \notin Range(c.xd))
           /\ res # Error =>
                 LET l == c.yd[1]  last == MCItemsOf[l][Len(MCItemsOf[l])] IN
